@@ -202,11 +202,12 @@ class Gen:
 
     def operand(self, leaves, depth, pred=None):
         """an operand expression (plain structure) of nesting ≤ depth"""
-        if depth <= 0 or self.rng.random() < 0.55:
+        if depth <= 0 or self.rng.random() < 0.7:
             return self.leaf(leaves, pred)
         out = self.gen(leaves, depth, final=False)
-        # (an analytic invocation nested in another operator is a syntax error of the emitted SQL whatever the attributes)
-        if out is None or not out[1].plain or uses(out[0], "analytic") or (pred is not None and not pred(out[1])):
+        # (an analytic invocation nested in another operator is a syntax error of the emitted SQL, and a set operator nested in an
+        #  aggregation is not de-duplicated, whatever the attributes: both are outside this property)
+        if out is None or not out[1].plain or uses(out[0], "analytic") or uses(out[0], "set") or (pred is not None and not pred(out[1])):
             return self.leaf(leaves, pred)
         return out
 
@@ -855,6 +856,11 @@ def judge(case, eng: dict, models: Dict[str, list]) -> List[dict]:
                         "what": f"the engine's value is the left fold in physical order, not a function of the multiset of values ({site})",
                         "diff": _diff(e1[3], spec[3])})
             continue
+        if any(nested_bin(t) for _, t in case["stmts"]):
+            out.append({"key": "nested-dataset-operator:viral-of-nested-operand-ignored", "attr": attr,
+                        "what": f"the viral attribute {attr} of a dataset∘dataset operator used as an operand is ignored by the outer operator "
+                                f"(its structure is rebuilt from identifiers and measures only): {_diff(e1[3], spec[3])}", "diff": _diff(e1[3], spec[3])})
+            continue
         out.append({"key": f"disagree:{top_kind(case)}:{site}", "attr": attr,
                     "what": f"engine and propagation model differ on attribute {attr}: {_diff(e1[3], spec[3])}", "diff": _diff(e1[3], spec[3])})
     return out
@@ -871,9 +877,19 @@ def nested_bin(t, under=False) -> bool:
                for k in kids if isinstance(k, list))
 
 
+def nested_op(t, under=False) -> bool:
+    """a dataset-level operator (not a clause over a variable) used as the operand of another operator or clause"""
+    if not isinstance(t, list) or not t or not isinstance(t[0], str):
+        return False
+    if t[0] in ("bin", "un", "aggr", "join", "checkall", "analytic", "set") and under:
+        return True
+    kids = t[2] if t[0] == "join" else [x for x in t[1:] if isinstance(x, list)]
+    return any(nested_op(k, True) for k in kids if isinstance(k, list))
+
+
 def missing_site(case) -> str:
-    if any(nested_bin(t) for _, t in case["stmts"]):
-        return "nested-dataset-operator"
+    if any(nested_op(t) for _, t in case["stmts"]):
+        return "nested-operand"
     return top_kind(case)
 
 
